@@ -22,3 +22,15 @@ impl Utc {
     #[verifier::external_body]
     pub fn now() -> (r: DateTime<Utc>) { unimplemented!() }
 }
+impl<Tz> PartialEq for DateTime<Tz> { #[verifier::external_body] fn eq(&self, o: &DateTime<Tz>) -> bool { unimplemented!() } }
+impl<Tz> vstd::std_specs::cmp::PartialEqSpecImpl for DateTime<Tz> {
+    open spec fn obeys_eq_spec() -> bool { true }
+    open spec fn eq_spec(&self, o: &DateTime<Tz>) -> bool { self@ == o@ }
+}
+impl<Tz> PartialOrd for DateTime<Tz> { #[verifier::external_body] fn partial_cmp(&self, o: &DateTime<Tz>) -> Option<core::cmp::Ordering> { unimplemented!() } }
+impl<Tz> vstd::std_specs::cmp::PartialOrdSpecImpl for DateTime<Tz> {
+    open spec fn obeys_partial_cmp_spec() -> bool { true }
+    open spec fn partial_cmp_spec(&self, o: &DateTime<Tz>) -> Option<core::cmp::Ordering> {
+        if self@ < o@ { Some(core::cmp::Ordering::Less) } else if self@ == o@ { Some(core::cmp::Ordering::Equal) } else { Some(core::cmp::Ordering::Greater) }
+    }
+}
